@@ -1,6 +1,8 @@
 /- C11 invariants, part 9: one entry per name in writtenCaches; no entry yet where the code registers one;
    the Commit loop works on a snapshot of writtenCaches; the pending registration -/
 import SemaModel.C11.Inv8
+set_option linter.unusedSimpArgs false
+set_option linter.unusedVariables false
 namespace Sema.C11
 
 def keysNodup (l : List (Name × ObjId)) : Prop := (l.map Prod.fst).Nodup
